@@ -67,7 +67,9 @@ _WL_FILES = {"reusable.py": None, "presets.py": None, "interface.py": None,
              "utils.py": {"__contains__", "__getitem__", "__setitem__"},
              "path_basic.py": {"search", "__call__", "ssa_path", "maybe_update_defaults", "_reconstruct_tree",
                                "_deconstruct_tree", "_get_suboptimizer"},
-             "path_random.py": {"search", "__call__"}}
+             "path_random.py": {"search", "__call__"},
+             # the cached expression objects handed out by the interface are shared between threads too
+             "contract.py": {"__call__"}}
 
 
 def _whitelist(base, name, full):
@@ -272,7 +274,13 @@ def run_case(prop, case):
                                 qq = dict(qq, via="search")
                             if qq["via"] == "contract":
                                 arrays = netgen.make_arrays(inputs, size_dict, prng.H(case["seed"], "arr", ti, k) % (2 ** 31))
-                                ans = ("value", ctg.array_contract(arrays, inputs, output, optimize=shared, canonicalize=bool(k % 2)), arrays)
+                                strip = bool(prng.H(case["seed"], "strip", qq["q"]) % 2)  # per contraction, so threads share the cached expression
+                                out = ctg.array_contract(arrays, inputs, output, optimize=shared, canonicalize=True, strip_exponent=strip)
+                                if strip:
+                                    import numpy as _np
+
+                                    out = _np.asarray(out[0]) * 10.0 ** float(out[1])
+                                ans = ("value", out, arrays)
                             elif isinstance(shared, str):
                                 if qq["via"] == "search":
                                     ans = ctg.array_contract_tree(inputs, output, size_dict, optimize=shared, canonicalize=False)
